@@ -33,6 +33,20 @@ def load_corpus(props=None):
                 if props and e['property'] not in props:
                     continue
                 out.append(e)
+    # behaviour-preserving refactorings and property-breaking changes written by independent sub-agents
+    for sub, kind in (('twins', 'twin'), ('seeded', 'mutant')):
+        root = os.path.join(VERIF, sub)
+        if not os.path.isdir(root):
+            continue
+        for name in sorted(os.listdir(root)):
+            patch = os.path.join(root, name, 'patch.diff')
+            meta = os.path.join(root, name, 'meta.json')
+            if not (os.path.exists(patch) and os.path.exists(meta)):
+                continue
+            prop = json.load(open(meta, encoding='utf-8'))['property']
+            if props and prop not in props:
+                continue
+            out.append({'property': prop, 'id': f'{sub}/{name}', 'kind': kind, 'patch': patch})
     return out
 
 
@@ -41,7 +55,11 @@ def run_entry(e, base):
     try:
         src = os.path.join(work, 'src')
         shutil.copytree(os.path.join(REPO, 'src'), src, ignore=shutil.ignore_patterns('__pycache__'))
-        for edit in e['edits']:
+        if 'patch' in e:
+            a = subprocess.run(['git', 'apply', '-p1', e['patch']], cwd=work, capture_output=True, text=True)
+            if a.returncode:
+                return e, 'STALE', f'patch does not apply: {a.stderr.strip()[:200]}'
+        for edit in e.get('edits', []):
             path = os.path.join(src, 'scippneutron', edit['file'])
             text = open(path, encoding='utf-8').read()
             n = text.count(edit['old'])
